@@ -61,10 +61,13 @@ Definition close_code_of (fr : bytes) : option N :=
   end.
 
 (* out-buffer length right after the op that raised the exception *)
-Fixpoint exception_len (prev : N) (obs : list (cobs * digest)) : option N :=
+(* None also when the buffer was sealed already (the client itself was closing: its own
+   Close stays the last frame, C08, and the exception's Close is dropped with everything else) *)
+Fixpoint exception_len (prev : N) (prev_sealed : bool) (obs : list (cobs * digest)) : option N :=
   match obs with
-  | (_, (p, l, _, _, _)) :: obs' =>
-      if (p =? 2) && negb (prev =? 2) then Some l else exception_len p obs'
+  | (_, (p, l, _, z, _)) :: obs' =>
+      if (p =? 2) && negb (prev =? 2) then (if prev_sealed then None else Some l)
+      else exception_len p z obs'
   | [] => None
   end.
 
@@ -72,7 +75,7 @@ Fixpoint exception_len (prev : N) (obs : list (cobs * digest)) : option N :=
    sealed, and the last frame is the Close with the right code *)
 Definition peeks_ok (ops : list cop) (obs : list (cobs * digest)) : bool :=
   let code := exception_code 0 ops obs in
-  let len0 := exception_len 0 obs in
+  let len0 := exception_len 0 false obs in
   forallb (fun '(o, (b, (p, _, _, sealed, _))) =>
              match o, b with
              | OPeekOut, BBytes bs =>
